@@ -95,6 +95,8 @@ def rule_lexical(body, applied):
         ('R1', r'\b(u16|u32|u64)::from_be_bytes\(', r'\1_from_be_bytes_v('),
         ('R2', r'\.extend\(', '.extend_v('),
         ('R3', r'\|_\|', '|_v0|'),
+        ('R12', r'\bstd::io::ErrorKind\b', 'IoErrorKind'),
+        ('R12', r'\bstd::io::Error\b', 'IoError'),
     ]
     for rid, pat, rep in rules:
         body, n = re.subn(pat, rep, body)
@@ -106,10 +108,15 @@ def rule_lexical(body, applied):
 def _recv_start(text, dot):
     """text[dot] is the '.' of '.iter()'; walk left over a simple receiver expression."""
     i = dot - 1
+    while i >= 0 and text[i].isspace():
+        i -= 1
     while i >= 0:
         c = text[i]
         if c.isalnum() or c in '_.':
             i -= 1
+        elif c.isspace() and text[i + 1] == '.':
+            while i >= 0 and text[i].isspace():
+                i -= 1
         elif c == ':' and i > 0 and text[i - 1] == ':':
             i -= 2
         elif c in ')]':
@@ -262,6 +269,12 @@ def splice(body, contract, applied):
     """Apply contract directives to the (already rewritten) body."""
     # 1. site-specific substitutions first (they can create loops)
     for kind, arg, text in contract.directives:
+        if kind == 'rule':
+            if arg.strip() == 'R9':
+                body, n = re.subn(r'\.iter\(\)', '.iter_v()', body)
+                applied.append({'rule': 'R9', 'pattern': '.iter() -> .iter_v()', 'count': n})
+            else:
+                raise GenError('%s: unknown @rule %s' % (contract.origin, arg))
         if kind == 'subst':
             mm = re.match(r'`(.*)`\s*=>\s*`(.*)`$', arg, re.S)
             if not mm:
@@ -279,7 +292,18 @@ def splice(body, contract, applied):
     loops = find_loops(body)
     nloop_dirs = set()
     for idx, (kind, arg, text) in enumerate(contract.directives):
-        if kind == 'subst':
+        if kind in ('subst', 'rule'):
+            continue
+        if kind == 'foriter':
+            k, nm = arg.split()
+            k = int(k)
+            if k >= len(loops):
+                raise GenError('%s: %s has %d loops, contract names loop %d (lost anchor)' % (contract.origin, contract.key, len(loops), k))
+            kw = loops[k][0]
+            mm = re.compile(r'\bin\s+').search(body, kw)
+            if not mm or mm.start() > loops[k][1]:
+                raise GenError('%s: loop %d of %s is not a for loop' % (contract.origin, k, contract.key))
+            ins.append((mm.end(), idx, nm + ': '))
             continue
         if kind in ('loop', 'loopend', 'loopbegin', 'afterloop'):
             try:
@@ -441,11 +465,17 @@ def extract_type(kind, name, relpath, opts, info):
             pass
     else:
         want = [d for d in ('Clone', 'Copy', 'PartialEq', 'Eq') if d in derives and d.lower() in opts]
+        if 'clonespec' in opts:
+            if 'Clone' not in derives:
+                raise GenError('enum %s: template asks for derived Clone but source derives %s' % (name, derives))
+            info['assumptions'].append('derive(Clone) on %s is structural (r == *self)' % name)
         decl = re.sub(r'\s*\n\s*\n', '\n', decl)
         if want:
             out.append('#[derive(%s)]' % ', '.join(want))
         out.append('#[allow(non_camel_case_types)]')
         out.append('pub ' + decl.strip())
+        if 'clonespec' in opts:
+            out.append('impl Clone for %s { #[verifier::external_body] fn clone(&self) -> (r: Self) ensures r == *self { unimplemented!() } }' % name)
         for v, t in from_variants:
             for pat, rep in TYPE_MAP:
                 t = re.sub(pat, rep, t)
@@ -621,7 +651,17 @@ def check_all_mut(typ, relpaths, info):
 
 
 def enum_table(name, relpath, fname, info):
+    """Table-driven assumed behaviour of num-derive FromPrimitive / ToPrimitive, generated from the enum
+    definition in the CURRENT source (discriminant <-> variant)."""
     vs = enum_variants(name, relpath)
+    if any(d < 0 or d > 255 for _, d in vs):
+        raise GenError('enum %s: discriminant outside u8 - table generation not supported' % name)
     info['assumptions'].append('num-derive FromPrimitive/ToPrimitive on %s maps discriminant <-> variant as listed in the enum definition (table generated from current source, %d variants)' % (name, len(vs)))
     arms = ' || '.join('b == %d' % d for _, d in vs)
-    return ('impl %s {\n    pub open spec fn valid_disc_%s(b: int) -> bool { %s }\n}\n' % (name, fname, arms))
+    return ('impl %s {\n'
+            '    #[verifier::opaque] pub open spec fn valid_disc_from_u8(b: int) -> bool { %s }\n'
+            '    #[verifier::external_body] pub fn from_u8(b: u8) -> (r: Option<%s>) ensures match r { Some(c) => c as u8 == b && %s::valid_disc_from_u8(b as int), None => !%s::valid_disc_from_u8(b as int) } { unimplemented!() }\n'
+            '    #[verifier::external_body] pub fn to_u8(&self) -> (r: Option<u8>) ensures r == Some(*self as u8) { unimplemented!() }\n'
+            '    #[verifier::external_body] pub fn to_u32(&self) -> (r: Option<u32>) ensures r == Some((*self as u8) as u32) { unimplemented!() }\n'
+            '    #[verifier::external_body] pub fn to_i32(&self) -> (r: Option<i32>) ensures r == Some((*self as u8) as i32) { unimplemented!() }\n'
+            '}\n' % (name, arms, name, name, name))
